@@ -122,7 +122,7 @@ def run(ctx, selftest=False):
                 "trivial = n=1 or b=1 (single task forced)")
     ctx.assumptions = ["TLC/SANY/CommunityModules", "numpy arange/slicing", "JSON transport of integers < 2^31"]
     # 1. design level: the algorithm refines the property (exhaustive)
-    ctx.model_check("PartitionAlg", "MC_PartitionAlg.cfg", coverage=True)
+    ctx.model_check("PartitionAlg", "MC_PartitionAlg.cfg" if quick else "MC_PartitionAlg_thorough.cfg", coverage=True)
     # 2. spec -> code: every behaviour TLC enumerates is replayed
     r = ctx.model_check("PartitionAlg", "MC_PartitionAlg_export.cfg", workers=1)
     cases = []
